@@ -1,6 +1,8 @@
 package main
 
 import (
+	"go/types"
+	"reflect"
 	"time"
 
 	"golang.org/x/tools/go/ssa"
@@ -15,7 +17,60 @@ var timeLayoutMinLen = map[string]int{
 	"2006-01-02": 10,
 }
 
+// timeValue is the time.Time that time.Parse(layout, text) returns for concrete arguments, as the engine's struct
+// {wall, ext, loc}: wall and ext are read from the real value (no monotonic reading after Parse, so ext is the
+// seconds since year 1 and wall&(2^30-1) the nanoseconds); loc is nil for UTC, as in the real value, and otherwise a
+// fresh opaque heap object per call — the real Parse allocates a new *Location (FixedZone) for every numeric zone
+// offset, which matters to code that compares time.Time values with ==.
+func (in *Interp) timeValue(tt types.Type, layout, text string) Value {
+	t, err := time.Parse(layout, text)
+	if err != nil {
+		panic("timeValue: " + err.Error())
+	}
+	rv := reflect.ValueOf(t)
+	st := &Struct{f: []Value{Int{rv.Field(0).Uint()}, Int{uint64(rv.Field(1).Int())}, Pointer{}}}
+	if !rv.Field(2).IsNil() {
+		st.f[2] = Pointer{obj: in.newObject(types.Typ[types.Int], Opaque{"time.Location " + t.Location().String()})}
+	}
+	return st
+}
+
+func timeParts(v Value) (sec int64, nsec int64) {
+	st := v.(*Struct)
+	wall, ok1 := st.f[0].(Int)
+	ext, ok2 := st.f[1].(Int)
+	if !ok1 || !ok2 {
+		unsup("symbolic time value")
+	}
+	if wall.v&(1<<63) != 0 {
+		unsup("time value with a monotonic clock reading")
+	}
+	return int64(ext.v), int64(wall.v & (1<<30 - 1))
+}
+
 func init() {
+	// instants are compared by seconds and nanoseconds, whatever the location (package time's definition)
+	timeCmp := func(f func(c int) bool) intrinsicFn {
+		return func(in *Interp, fn *ssa.Function, a []Value, c *frame, s ssa.Instruction) (Value, bool) {
+			s1, n1 := timeParts(a[0])
+			s2, n2 := timeParts(a[1])
+			cmp := 0
+			switch {
+			case s1 < s2 || (s1 == s2 && n1 < n2):
+				cmp = -1
+			case s1 > s2 || (s1 == s2 && n1 > n2):
+				cmp = 1
+			}
+			return f(cmp), true
+		}
+	}
+	reg("(time.Time).Equal", timeCmp(func(c int) bool { return c == 0 }))
+	reg("(time.Time).Before", timeCmp(func(c int) bool { return c < 0 }))
+	reg("(time.Time).After", timeCmp(func(c int) bool { return c > 0 }))
+	reg("(time.Time).IsZero", func(in *Interp, fn *ssa.Function, a []Value, c *frame, s ssa.Instruction) (Value, bool) {
+		sec, nsec := timeParts(a[0])
+		return sec == 0 && nsec == 0, true
+	})
 	reg("time.Parse", func(in *Interp, fn *ssa.Function, a []Value, c *frame, s ssa.Instruction) (Value, bool) {
 		layout, ok := a[0].(string)
 		if !ok {
@@ -26,14 +81,14 @@ func init() {
 			if _, err := time.Parse(layout, v); err != nil {
 				return Tuple{zero(tt), in.mkErrVal(err.Error(), nil)}, true
 			}
-			unsup("time.Parse succeeded on %q: time values are not modelled", v)
+			return Tuple{in.timeValue(tt, layout, v), Iface{}}, true
 		}
 		val := strArgVal(in, a[1])
 		if v, ok := val.(string); ok {
 			if _, err := time.Parse(layout, v); err != nil {
 				return Tuple{zero(tt), in.mkErrVal(err.Error(), nil)}, true
 			}
-			unsup("time.Parse succeeded on %q: time values are not modelled", v)
+			return Tuple{in.timeValue(tt, layout, v), Iface{}}, true
 		}
 		if at := singleFmtInt(val); at != nil {
 			// a bare integer never parses as one of the modelled layouts ('-' / 'T' separators required)
